@@ -98,7 +98,8 @@ impl<'store> ResultItem<'store, DataKey> {
         if other.any() {
             true
         } else {
-            self.handle() == other.to_handle(self.store()).expect("key must have handle")
+            //(a key that does not exist in the set is not this key)
+            Some(self.handle()) == other.to_handle(self.store())
         }
     }
 
